@@ -19,9 +19,32 @@ const KStore SortKind = 100
 
 func (u *Universe) BzSort() *Sort {
 	s := u.opaque("Bz")
+	if u.declared["c:bz_nil"] {
+		return s
+	}
 	u.decl("c:bz_nil", "(declare-const bz_nil Bz)")
+	u.decl("f:bz_len", "(declare-fun bz_len (Bz) Int)")
+	u.decl("f:bz_cap", "(declare-fun bz_cap (Bz) Int)")
+	u.decl("f:bz_at", "(declare-fun bz_at (Bz Int) Int)")
+	u.decl("f:bz_slice", "(declare-fun bz_slice (Bz Int Int) Bz)")
+	u.decl("f:bz_cat", "(declare-fun bz_cat (Bz Bz) Bz)")
+	u.decl("f:bz_snoc", "(declare-fun bz_snoc (Bz Int) Bz)")
+	u.decl("f:bz_upd", "(declare-fun bz_upd (Bz Int Int) Bz)")
+	u.decl("ax:bz1", "(assert (and (= (bz_len bz_nil) 0) (= (bz_cap bz_nil) 0)))")
+	u.decl("ax:bz2", "(assert (forall ((b Bz)) (! (and (<= 0 (bz_len b)) (<= (bz_len b) (bz_cap b)) (<= (bz_cap b) 9223372036854775807)) :pattern ((bz_len b)) :pattern ((bz_cap b)))))")
+	u.decl("ax:bz3", "(assert (forall ((b Bz) (i Int)) (! (in_uint8 (bz_at b i)) :pattern ((bz_at b i)))))")
+	u.decl("ax:bz4", "(assert (forall ((b Bz) (lo Int) (hi Int)) (! (=> (and (<= 0 lo) (<= lo hi) (<= hi (bz_cap b))) (and (= (bz_len (bz_slice b lo hi)) (- hi lo)) (= (bz_cap (bz_slice b lo hi)) (- (bz_cap b) lo)))) :pattern ((bz_slice b lo hi)))))")
+	u.decl("ax:bz5", "(assert (forall ((b Bz) (lo Int) (hi Int) (j Int)) (! (=> (and (<= 0 lo) (<= 0 j) (< j (- hi lo))) (= (bz_at (bz_slice b lo hi) j) (bz_at b (+ lo j)))) :pattern ((bz_at (bz_slice b lo hi) j)))))")
+	u.decl("ax:bz6", "(assert (forall ((a Bz) (b Bz)) (! (=> (<= (+ (bz_len a) (bz_len b)) 9223372036854775807) (and (= (bz_len (bz_cat a b)) (+ (bz_len a) (bz_len b))) (=> (> (bz_len b) 0) (not (= (bz_cat a b) bz_nil))))) :pattern ((bz_cat a b)))))")
+	u.decl("ax:bz7", "(assert (forall ((a Bz) (b Bz) (j Int)) (! (= (bz_at (bz_cat a b) j) (ite (< j (bz_len a)) (bz_at a j) (bz_at b (- j (bz_len a))))) :pattern ((bz_at (bz_cat a b) j)))))")
+	u.decl("ax:bz8", "(assert (forall ((a Bz) (x Int)) (! (=> (and (in_uint8 x) (< (bz_len a) 9223372036854775807)) (and (= (bz_len (bz_snoc a x)) (+ (bz_len a) 1)) (not (= (bz_snoc a x) bz_nil)) (= (bz_at (bz_snoc a x) (bz_len a)) x))) :pattern ((bz_snoc a x)))))")
+	u.decl("ax:bz9", "(assert (forall ((a Bz) (x Int) (j Int)) (! (=> (< j (bz_len a)) (= (bz_at (bz_snoc a x) j) (bz_at a j))) :pattern ((bz_at (bz_snoc a x) j)))))")
+	u.decl("ax:bz10", "(assert (forall ((a Bz) (i Int) (x Int)) (! (=> (in_uint8 x) (and (= (bz_len (bz_upd a i x)) (bz_len a)) (= (bz_cap (bz_upd a i x)) (bz_cap a)) (= (bz_at (bz_upd a i x) i) x))) :pattern ((bz_upd a i x)))))")
+	u.decl("ax:bz11", "(assert (forall ((a Bz) (i Int) (x Int) (j Int)) (! (=> (not (= i j)) (= (bz_at (bz_upd a i x) j) (bz_at a j))) :pattern ((bz_at (bz_upd a i x) j)))))")
 	return s
 }
+
+func isBz(s *Sort) bool { return s != nil && s.Kind == KOpaque && s.Name == "Bz" }
 
 func (u *Universe) StoreSort() *Sort {
 	u.BzSort()
@@ -296,4 +319,92 @@ func sortedKeys(m map[string]int) []string {
 	}
 	sort.Strings(ks)
 	return ks
+}
+
+// asBz converts a []byte-typed value to the abstract byte-string sort (nil slice -> bz_nil).
+func (fc *FCtx) asBz(v Val) Val {
+	bz := fc.U.BzSort()
+	if v.S == bz {
+		return v
+	}
+	if v.S.Kind == KSlice && strings.HasPrefix(v.T, "(mk_"+v.S.Name+" 0 0 ") {
+		return Val{T: "bz_nil", S: bz, GoT: v.GoT}
+	}
+	return Val{T: fc.toBz(v), S: bz, GoT: v.GoT}
+}
+
+// ---------------------------------------------------------------------------------------------
+// Cache contexts (DESIGN §4.3 level 0, as built): ctx.CacheContext() returns a context whose stores
+// are copies ("Store_<m>@c<k>") of the parent's; writeFn() copies them back.
+// ---------------------------------------------------------------------------------------------
+
+func (fc *FCtx) ctxTheory() *Sort {
+	c := fc.U.opaque("Ctx")
+	if fc.U.declared["f:cache_ctx"] {
+		return c
+	}
+	fc.U.Fun("cache_ctx", []*Sort{c, SInt}, c)
+	fc.U.Fun("ctx_blocktime", []*Sort{c}, SInt)
+	fc.U.Fun("ctx_blockheight", []*Sort{c}, SInt)
+	fc.U.Fun("ctx_chainid", []*Sort{c}, SStr)
+	fc.U.Axiom("a cache context has its parent's block header", "(forall ((c Ctx) (k Int)) (! (and (= (ctx_blocktime (cache_ctx c k)) (ctx_blocktime c)) (= (ctx_blockheight (cache_ctx c k)) (ctx_blockheight c)) (= (ctx_chainid (cache_ctx c k)) (ctx_chainid c))) :pattern ((cache_ctx c k))))")
+	fc.U.Axiom("block height is an int64", "(forall ((c Ctx)) (! (in_int64 (ctx_blockheight c)) :pattern ((ctx_blockheight c))))")
+	return c
+}
+
+func (fc *FCtx) suffixOfCtx(v *Val) string {
+	if v == nil {
+		return ""
+	}
+	return fc.ctxSuffixOf[v.T]
+}
+
+func isStoreGhost(name string) bool { return true }
+
+func baseGhost(name string) string {
+	if k := strings.Index(name, "@"); k >= 0 {
+		return name[:k]
+	}
+	return name
+}
+
+func init() {
+	intrinsics["(github.com/cosmos/cosmos-sdk/types.Context).CacheContext"] = func(fc *FCtx, st *State, e *ast.CallExpr, r *Val, a []Val) []Val {
+		c := fc.ctxTheory()
+		fc.cacheN++
+		suffix := fmt.Sprintf("@c%d", fc.cacheN)
+		parent := fc.suffixOfCtx(r)
+		nt := fmt.Sprintf("(cache_ctx %s %d)", r.T, fc.cacheN)
+		fc.ctxSuffixOf[nt] = suffix
+		fc.cacheParent[suffix] = parent
+		for _, g := range fc.ghostNames(st) {
+			if isStoreGhost(g) && strings.TrimPrefix(g, baseGhost(g)) == parent {
+				st.ghost[baseGhost(g)+suffix] = st.ghost[g]
+			}
+		}
+		fs := fc.U.opaque("Func")
+		return []Val{{T: nt, S: c, GoT: r.GoT}, {T: "@writefn:" + suffix, S: fs}}
+	}
+}
+
+// callFuncValue handles calls through local function values: only the write function of a cache
+// context is supported.
+func (fc *FCtx) callFuncValue(e *ast.CallExpr, st *State) ([]Val, bool) {
+	id, ok := unparen(e.Fun).(*ast.Ident)
+	if !ok {
+		return nil, false
+	}
+	obj := fc.info().ObjectOf(id)
+	v, ok := st.vars[obj]
+	if !ok || !strings.HasPrefix(v.T, "@writefn:") {
+		return nil, false
+	}
+	suffix := strings.TrimPrefix(v.T, "@writefn:")
+	parent := fc.cacheParent[suffix]
+	for _, g := range fc.ghostNames(st) {
+		if isStoreGhost(g) && strings.HasSuffix(g, suffix) {
+			st.ghost[baseGhost(g)+parent] = st.ghost[g]
+		}
+	}
+	return nil, true
 }
